@@ -4,7 +4,6 @@ import (
 	"encoding/binary"
 	"errors"
 	"fmt"
-	"math"
 )
 
 // Tiny Well Known Binary
@@ -105,7 +104,7 @@ type twkbParser struct {
 	hasM       bool
 	precZ      int
 	precM      int
-	scalings   [twkbMaxDimensions]float64
+	precs      [twkbMaxDimensions]int
 
 	hasBBox bool
 	hasSize bool
@@ -232,8 +231,8 @@ func (p *twkbParser) parseTypeAndPrecision() error {
 	p.kind = twkbGeometryType(typeprec & 0x0f)
 	p.precXY = int(decodeZigZagInt64(uint64(typeprec) >> 4))
 
-	p.scalings[0] = math.Pow10(p.precXY) // X
-	p.scalings[1] = math.Pow10(p.precXY) // Y
+	p.precs[0] = p.precXY // X
+	p.precs[1] = p.precXY // Y
 	return nil
 }
 
@@ -279,16 +278,16 @@ func (p *twkbParser) parseExtendedPrecision() error {
 	case p.hasZ && p.hasM:
 		p.ctype = DimXYZM
 		p.dimensions = 4
-		p.scalings[2] = math.Pow10(p.precZ)
-		p.scalings[3] = math.Pow10(p.precM)
+		p.precs[2] = p.precZ
+		p.precs[3] = p.precM
 	case p.hasZ:
 		p.ctype = DimXYZ
 		p.dimensions = 3
-		p.scalings[2] = math.Pow10(p.precZ)
+		p.precs[2] = p.precZ
 	case p.hasM:
 		p.ctype = DimXYM
 		p.dimensions = 3
-		p.scalings[2] = math.Pow10(p.precM)
+		p.precs[2] = p.precM
 	}
 	return nil
 }
@@ -335,15 +334,15 @@ func (p *twkbParser) parseBBoxHeader() (ExtendedEnvelope, error) {
 	}
 	switch {
 	case p.hasZ && p.hasM:
-		minX := float64(p.bbox[0]) / p.scalings[0]
-		minY := float64(p.bbox[2]) / p.scalings[1]
-		minZ := float64(p.bbox[4]) / p.scalings[2]
-		minM := float64(p.bbox[6]) / p.scalings[3]
+		minX := twkbScaleDown(float64(p.bbox[0]), p.precs[0])
+		minY := twkbScaleDown(float64(p.bbox[2]), p.precs[1])
+		minZ := twkbScaleDown(float64(p.bbox[4]), p.precs[2])
+		minM := twkbScaleDown(float64(p.bbox[6]), p.precs[3])
 
-		maxX := float64(p.bbox[0]+p.bbox[1]) / p.scalings[0]
-		maxY := float64(p.bbox[2]+p.bbox[3]) / p.scalings[1]
-		maxZ := float64(p.bbox[4]+p.bbox[5]) / p.scalings[2]
-		maxM := float64(p.bbox[6]+p.bbox[7]) / p.scalings[3]
+		maxX := twkbScaleDown(float64(p.bbox[0]+p.bbox[1]), p.precs[0])
+		maxY := twkbScaleDown(float64(p.bbox[2]+p.bbox[3]), p.precs[1])
+		maxZ := twkbScaleDown(float64(p.bbox[4]+p.bbox[5]), p.precs[2])
+		maxM := twkbScaleDown(float64(p.bbox[6]+p.bbox[7]), p.precs[3])
 
 		return ExtendedEnvelope{
 			XYEnvelope: NewEnvelope(XY{minX, minY}, XY{maxX, maxY}),
@@ -351,37 +350,37 @@ func (p *twkbParser) parseBBoxHeader() (ExtendedEnvelope, error) {
 			MRange:     NewInterval(minM, maxM),
 		}, nil
 	case p.hasZ:
-		minX := float64(p.bbox[0]) / p.scalings[0]
-		minY := float64(p.bbox[2]) / p.scalings[1]
-		minZ := float64(p.bbox[4]) / p.scalings[2]
+		minX := twkbScaleDown(float64(p.bbox[0]), p.precs[0])
+		minY := twkbScaleDown(float64(p.bbox[2]), p.precs[1])
+		minZ := twkbScaleDown(float64(p.bbox[4]), p.precs[2])
 
-		maxX := float64(p.bbox[0]+p.bbox[1]) / p.scalings[0]
-		maxY := float64(p.bbox[2]+p.bbox[3]) / p.scalings[1]
-		maxZ := float64(p.bbox[4]+p.bbox[5]) / p.scalings[2]
+		maxX := twkbScaleDown(float64(p.bbox[0]+p.bbox[1]), p.precs[0])
+		maxY := twkbScaleDown(float64(p.bbox[2]+p.bbox[3]), p.precs[1])
+		maxZ := twkbScaleDown(float64(p.bbox[4]+p.bbox[5]), p.precs[2])
 
 		return ExtendedEnvelope{
 			XYEnvelope: NewEnvelope(XY{minX, minY}, XY{maxX, maxY}),
 			ZRange:     NewInterval(minZ, maxZ),
 		}, nil
 	case p.hasM:
-		minX := float64(p.bbox[0]) / p.scalings[0]
-		minY := float64(p.bbox[2]) / p.scalings[1]
-		minM := float64(p.bbox[4]) / p.scalings[2]
+		minX := twkbScaleDown(float64(p.bbox[0]), p.precs[0])
+		minY := twkbScaleDown(float64(p.bbox[2]), p.precs[1])
+		minM := twkbScaleDown(float64(p.bbox[4]), p.precs[2])
 
-		maxX := float64(p.bbox[0]+p.bbox[1]) / p.scalings[0]
-		maxY := float64(p.bbox[2]+p.bbox[3]) / p.scalings[1]
-		maxM := float64(p.bbox[4]+p.bbox[5]) / p.scalings[2]
+		maxX := twkbScaleDown(float64(p.bbox[0]+p.bbox[1]), p.precs[0])
+		maxY := twkbScaleDown(float64(p.bbox[2]+p.bbox[3]), p.precs[1])
+		maxM := twkbScaleDown(float64(p.bbox[4]+p.bbox[5]), p.precs[2])
 
 		return ExtendedEnvelope{
 			XYEnvelope: NewEnvelope(XY{minX, minY}, XY{maxX, maxY}),
 			MRange:     NewInterval(minM, maxM),
 		}, nil
 	default:
-		minX := float64(p.bbox[0]) / p.scalings[0]
-		minY := float64(p.bbox[2]) / p.scalings[1]
+		minX := twkbScaleDown(float64(p.bbox[0]), p.precs[0])
+		minY := twkbScaleDown(float64(p.bbox[2]), p.precs[1])
 
-		maxX := float64(p.bbox[0]+p.bbox[1]) / p.scalings[0]
-		maxY := float64(p.bbox[2]+p.bbox[3]) / p.scalings[1]
+		maxX := twkbScaleDown(float64(p.bbox[0]+p.bbox[1]), p.precs[0])
+		maxY := twkbScaleDown(float64(p.bbox[2]+p.bbox[3]), p.precs[1])
 
 		return ExtendedEnvelope{
 			XYEnvelope: NewEnvelope(XY{minX, minY}, XY{maxX, maxY}),
@@ -638,7 +637,7 @@ func (p *twkbParser) parsePointArray(numPoints int) ([]float64, error) {
 			}
 
 			p.refpoint[d] += val // Reverse coord differencing to find the true value.
-			coords[c] = float64(p.refpoint[d]) / p.scalings[d]
+			coords[c] = twkbScaleDown(float64(p.refpoint[d]), p.precs[d])
 			c++
 		}
 	}
